@@ -17,6 +17,9 @@ def parseEntry19 : String → Option ApiEntry
   | "addrRestart" => some .addrRestart | "ctxRestart" => some .ctxRestart
   | "withStream" => some .withStream | "recreateFromDefault" => some .recreateFromDefault
   | "builderOnStream" => some .builderOnStream | "builderBoundedOnStream" => some .builderBoundedOnStream
+  | "brokerTryPublish" => some .brokerTryPublish | "brokerAddrPublish" => some .brokerAddrPublish
+  | "brokerAddrSubscribe" => some .brokerAddrSubscribe | "brokerAddrUnsubscribe" => some .brokerAddrUnsubscribe
+  | "spawnOnStream" => some .spawnOnStream | "spawnOwningOnStream" => some .spawnOwningOnStream
   | _ => none
 
 def kv (toks : List String) (key : String) : String :=
